@@ -22,7 +22,7 @@ pub fn prop() -> Prop {
                each through YAML text -> serde_yaml -> ConfigFile -> merge_file and argv -> structopt -> merge_args on Config::default(), \
                compared field by field with a reference overlay built from the documented defaults; every effective configuration \
                is also turned into file form, serialised, re-parsed and merged into defaults; netmask: every prefix 0..=40 x address \
-               forms + malformed strings. non-trivial = at least one option present (merge cases) / parser accepted (netmask)",
+               forms + malformed strings. Value variants: two different values, and the same value in both sources; hook scripts with colons. non-trivial = at least one option present (merge cases) / parser accepted (netmask)",
         run,
         replay,
     }
